@@ -192,8 +192,15 @@ func (w *rfWorld) resolver(ctx context.Context, released func()) (*rfVal, func()
 	switch outcome {
 	case rfError:
 		gen.errF = fmt.Errorf("resolve-error-g%d", gen.g)
+		if gen.g%3 == 0 {
+			// a resolver error that wraps a cancellation of something else: an error result like any other
+			gen.errF = fmt.Errorf("resolve-error-g%d: %w", gen.g, context.Canceled)
+		}
 	case rfErrorWithRel, rfErrorWithRelAfterCancel:
 		gen.errF = fmt.Errorf("resolve-error-g%d", gen.g)
+		if gen.g%3 == 0 {
+			gen.errF = fmt.Errorf("resolve-error-g%d: %w", gen.g, context.Canceled)
+		}
 		rel = mkRel()
 	default:
 		if w.sameValue {
